@@ -19,7 +19,98 @@ from simkit.props import C01
 RUN_CAP_S = 120
 
 
+def gen_distreg(rng):
+    n = rng.randint(5, 14)
+    smooths = []
+    for pred in ("loc", "scale"):
+        for j in range(rng.randint(1, 2)):
+            if rng.random() < 0.5:
+                smooths.append({"kind": "p", "pred": pred, "name": f"{pred}_p{j}", "d": rng.randint(1, 3), "m": round(rng.uniform(-1, 1), 2), "s": rng.choice([0.5, 2.0, 10.0])})
+            else:
+                d = rng.randint(2, 5)
+                smooths.append({"kind": "np", "pred": pred, "name": f"{pred}_np{j}", "d": d, "pen": rng.choice(["identity", "ridge_plus", "diff1", "diff2" if d >= 3 else "diff1"]),
+                                "a": rng.choice([0.5, 1.0, 2.5]), "b": rng.choice([0.01, 0.5, 2.0])})
+    steps = []
+    for _ in range(rng.randint(2, 8)):
+        sm = rng.choice(smooths)
+        if sm["kind"] == "np" and rng.random() < 0.4:
+            steps.append([sm["name"] + "_tau2", round(rng.uniform(0.2, 6.0), 3)])
+        else:
+            scale = 0.3 if sm["pred"] == "scale" else 1.0
+            steps.append([sm["name"] + "_beta", [round(rng.uniform(-1.5, 1.5) * scale, 3) for _ in range(sm["d"])]])
+    return {"sub": "distreg", "n": n, "smooths": smooths, "steps": steps, "data_seed": rng.randrange(10**6), "spec": [], "ops": [], "user": {}, "per_obs_twin": False}
+
+
+def exec_distreg(plan, V, log, counters):
+    import jax.numpy as jnp
+    import tensorflow_probability.substrates.jax.bijectors as tfb
+    import tensorflow_probability.substrates.jax.distributions as tfd
+    from scipy import stats
+
+    from liesel.model.distreg import DistRegBuilder
+    from simkit.props.C13 import penalty
+
+    rs = np.random.RandomState(plan["data_seed"])
+    n = plan["n"]
+    y = rs.normal(size=n).astype(np.float32)
+    b = DistRegBuilder().add_response(jnp.asarray(y), tfd.Normal).add_predictor("loc", tfb.Identity).add_predictor("scale", tfb.Exp)
+    X, K = {}, {}
+    for sm in plan["smooths"]:
+        X[sm["name"]] = (rs.normal(size=(n, sm["d"])) * (0.4 if sm["pred"] == "scale" else 1.0)).astype(np.float32)
+        if sm["kind"] == "p":
+            b.add_p_smooth(jnp.asarray(X[sm["name"]]), m=sm["m"], s=sm["s"], predictor=sm["pred"], name=sm["name"])
+        else:
+            K[sm["name"]] = penalty(sm["pen"], sm["d"])
+            b.add_np_smooth(jnp.asarray(X[sm["name"]]), jnp.asarray(K[sm["name"]], jnp.float32), a=sm["a"], b=sm["b"], predictor=sm["pred"], name=sm["name"])
+    try:
+        model = b.build_model()
+    except Exception as e:
+        raise SutError(f"build_model|{type(e).__name__}|distreg|{e}") from e
+    cur = {sm["name"] + "_beta": np.zeros(sm["d"]) for sm in plan["smooths"]}
+    cur.update({sm["name"] + "_tau2": 10000.0 for sm in plan["smooths"] if sm["kind"] == "np"})
+
+    def reference():
+        eta = {"loc": np.zeros(n), "scale": np.zeros(n)}
+        prior = 0.0
+        for sm in plan["smooths"]:
+            beta = np.asarray(cur[sm["name"] + "_beta"], np.float64)
+            eta[sm["pred"]] = eta[sm["pred"]] + X[sm["name"]].astype(np.float64) @ beta
+            if sm["kind"] == "p":
+                prior += stats.norm.logpdf(beta, sm["m"], sm["s"]).sum()
+            else:
+                Kk = K[sm["name"]]
+                ev = np.linalg.eigvalsh(Kk)
+                pos = ev[ev > 1e-6 * ev.max()]
+                rank = len(pos)
+                t2 = float(np.float32(cur[sm["name"] + "_tau2"]))
+                log_pdet = np.log(pos).sum() - rank * np.log(t2)
+                prior += 0.5 * (-(beta @ Kk @ beta) / t2 - rank * np.log(2 * np.pi) + log_pdet)
+                prior += stats.invgamma.logpdf(t2, sm["a"], scale=sm["b"])
+        lik = stats.norm.logpdf(y.astype(np.float64), eta["loc"], np.exp(eta["scale"])).sum()
+        return lik, prior
+
+    def compare(where):
+        lik, prior = reference()
+        mag = abs(lik) + abs(prior)
+        for name, got, exp in (("log_lik", model.log_lik, lik), ("log_prior", model.log_prior, prior), ("log_prob", model.log_prob, lik + prior)):
+            g = float(np.asarray(got, np.float64))
+            if not abs(g - exp) <= 2e-4 * (1 + mag):
+                V.add("total-equals-joint-density", f"{name}/distreg", f"{where}: Model.{name} = {g}, reference {exp} (smooths {[(s_['name'], s_['kind'], s_.get('pen')) for s_ in plan['smooths']]})")
+        counters["density_checks"] = counters.get("density_checks", 0) + 1
+
+    compare("build")
+    for i, (key, val) in enumerate(plan["steps"]):
+        model.vars[key].value = jnp.asarray(val, jnp.float32)
+        cur[key] = val
+        log.add(i, key)
+        compare(f"assign:#{i}:{key}")
+    counters["probe.distreg_model"] = 1
+    counters["probe.degenerate_mvn_prior"] = int(any(sm["kind"] == "np" and sm["pen"] in ("diff1", "diff2") for sm in plan["smooths"]))
+
+
 def gen_plan(rng, tier: str, idx: int) -> dict:
+    if idx % 8 == 7:
+        return gen_distreg(rng)
     spec = M.gen_spec(rng, n_items=(3, 14), p_dist=0.75, p_transform=0.3, transforms=M.HOWS, prefixes=("q", "u"))
     ops = C01.interleave(rng, spec, rng.randint(1, 3), faults=False, max_ops=rng.randint(4, 25))
     user = {}
@@ -31,10 +122,25 @@ def gen_plan(rng, tier: str, idx: int) -> dict:
 
 
 def abbreviate(plan):
+    if plan.get("sub") == "distreg":
+        return {k: v for k, v in plan.items() if k not in ("spec", "ops")}
     return {"spec": plan["spec"][:6], "n_items": len(plan["spec"]), "ops": plan["ops"][:12], "n_ops": len(plan["ops"]), "user": plan["user"]}
 
 
 def shrink_candidates(plan):
+    if plan.get("sub") == "distreg":
+        for i in range(len(plan["steps"]) - 1, -1, -1):
+            p = copy.deepcopy(plan)
+            del p["steps"][i]
+            yield p
+        for i in range(len(plan["smooths"]) - 1, -1, -1):
+            nm = plan["smooths"][i]["name"]
+            if len([s_ for s_ in plan["smooths"] if s_["pred"] == plan["smooths"][i]["pred"]]) > 1:
+                p = copy.deepcopy(plan)
+                del p["smooths"][i]
+                p["steps"] = [st for st in p["steps"] if not st[0].startswith(nm + "_")]
+                yield p
+        return
     for p in C01.shrink_candidates(dict(plan, faults=False)):
         # keep user-total indices valid
         if len(p["spec"]) != len(plan["spec"]):
@@ -139,6 +245,10 @@ def execute(plan: dict) -> dict:
     log = EventLog()
     counters: dict = {}
     spec = plan["spec"]
+    if plan.get("sub") == "distreg":
+        exec_distreg(plan, V, log, counters)
+        return {"violations": V.items, "digest": log.digest(), "tail": log.tail[:20], "sig": sha(canon([plan["smooths"], len(plan["steps"])]))[:16],
+                "nontrivial": True, "counters": counters, "simtime": len(plan["steps"]), "subbatch": "distreg"}
     try:
         b, model = build(spec, plan["user"])
     except SutError as e:
